@@ -292,7 +292,7 @@ class Driver:
             return None, r, False
         if k == "upd":
             r = call(lambda: getattr(cur, UPD[o[1]])(self.arg(o[2])))
-            return r, cur, isinstance(r, Err)
+            return r, cur, False      # a bulk update that raised half-way leaves `cur` half-updated: compared too
         if k == "test":
             return call(lambda: bool(getattr(cur, TEST[o[1]])(self.arg(o[2])))), cur, False
         if k == "choff":
@@ -604,7 +604,7 @@ def main(chk: Check):
             snap = drv.snap(nxt)
             ops.append(o)
             trace.append((before, mut_before, o))
-            res.append([v, None if stop else snap])   # after a failed in-place bulk update the set is not compared
+            res.append([v, snap])
             name = o[0] if o[0] not in ("bin", "upd", "test") else {"bin": BIN, "upd": UPD, "test": TEST}[o[0]][o[1]]
             hk = name + (":" + o[3] if len(o) > 3 and o[0] in ("bin", "upd", "test") else "")
             hist[hk] = hist.get(hk, 0) + 1
